@@ -18,7 +18,7 @@ LEVEL_NOTE = ("Trusted: virtual clock (the reference run is reproducible, so 'af
               "encoding used by the recovery-budget model (shared with C08).")
 DESIGN_REF = "§5 C12"
 RULE = "case = (deterministic program, pause tick k); all k of each program are enumerated; distinct = hash of (program, k, state summary); non-trivial = pause state has queued or running work"
-REQUIRED_REACH = ["pause_point", "resumed_run", "result_compare", "state_compare", "retry_continuity_eval", "resumed_in_flight_retry", "fixed_point_eval", "fixed_point_with_waiter", "pause_with_collected", "queue_entry_roundtrip_eval", "queued_with_recovery_budget", "queued_with_retry_info", "resumed_run_snapshotted_again", "typed_state_pause_point", "second_generation_resume", "second_generation_resume_with_parallel_invocations", "pause_after_sender_completed", "pause_with_sent_events_not_yet_processed"]
+REQUIRED_REACH = ["pause_point", "resumed_run", "result_compare", "state_compare", "retry_continuity_eval", "resumed_in_flight_retry", "fixed_point_eval", "fixed_point_with_waiter", "pause_with_collected", "queue_entry_roundtrip_eval", "queued_with_recovery_budget", "queued_with_retry_info", "resumed_run_snapshotted_again", "typed_state_pause_point", "second_generation_resume", "second_generation_resume_with_parallel_invocations", "pause_after_sender_completed", "pause_with_sent_events_not_yet_processed", "restore_twice_eval"]
 ASSUMPTIONS = ["workflows are deterministic and idempotent under re-execution by construction (no ctx.send_event, idempotent state writes)"]
 EXHAUSTIVE = False
 
@@ -93,6 +93,16 @@ def check_pause(case, k, snap, ref, acc):
                     bad = [kk for kk in keys if e1 is None or (e0.get(kk) or None) != (e1.get(kk) or None)]
                     acc.violation({"mech": "queue_entry_changed_by_roundtrip", "fields": sorted(bad)[:3]},
                                   f"pause {k}: queued entry {i} of step {sname} changes through from_dict/to_dict in {bad}: { {kk: e0.get(kk) for kk in bad} } -> { e1 and {kk: e1.get(kk) for kk in bad} }", wit)
+        # two contexts restored from the SAME serialized text are independent values: whatever a resumed run does to the events of
+        # the first (a step that edits its input event in place, say) must not show in a second restore of that text
+        touched = _touch_events(st1)
+        if touched:
+            acc.hit("restore_twice_eval")
+            _st4, d4 = _roundtrip(case, snap)
+            if d4 != d2:
+                acc.violation({"mech": "restored_contexts_share_objects"},
+                              f"pause {k}: after events of a context restored from the snapshot were edited in place ({touched} events), restoring the same snapshot text "
+                              f"again gives a different run state: {_first_diff(d2, d4)}", wit)
         if d2 != d3 or n1 != n2:
             acc.violation({"mech": "serialized_form_not_a_fixed_point"},
                           f"deserialize / re-serialize / deserialize at pause {k} changes the run state: {oracles.diff_state(n1, n2)[:2] or _first_diff(d2, d3)}", wit)
@@ -229,6 +239,24 @@ def _roundtrip(case, d):
     out = st.to_serialized(ser)
     out.state = sc.state
     return st, json.loads(json.dumps(out.model_dump(mode="python")))
+
+
+def _touch_events(st):
+    """edit every event held by a restored run state in place (dynamic field), like a step body working on its input"""
+    n = 0
+    for w in st.workers.values():
+        evs = [q.event for q in w.queue] + [ip.event for ip in w.in_progress]
+        for lst in w.collected_events.values():
+            evs += list(lst)
+        for cw in w.collected_waiters:
+            evs += [cw.event] + ([cw.resolved_event] if cw.resolved_event is not None else [])
+        for ev in evs:
+            try:
+                ev["__touched"] = ev.get("__touched", 0) + 1
+                n += 1
+            except Exception:  # noqa: BLE001
+                pass
+    return n
 
 
 def _instance(case):
